@@ -63,6 +63,52 @@ def toSrc : Spec.CExpr.Expr → Model.CType.Src
   | .cond c a b => .tern (toSrc c) (toSrc a) (toSrc b)
   | .cast τ a => .cast (M τ) (toSrc a)
 
+/-! ### what C prescribes for a single operator node, written as a typed tree -/
+
+open Model.CType (TExpr coerce) in
+/-- `e` converted to `τ1`, then to `τ2` (a conversion to the type it already has is no node) -/
+def conv2 (e : Model.CType.TExpr) (τ1 τ2 : Model.CType.Ty) : Model.CType.TExpr := coerce (coerce e τ1) τ2
+
+def BinOp.all' : List BinOp :=
+  [.add, .sub, .mul, .div, .mod, .shl, .shr, .band, .bor, .bxor, .lt, .gt, .le, .ge, .eq, .ne, .land, .lor]
+
+def isCmp : BinOp → Bool
+  | .lt | .gt | .le | .ge | .eq | .ne => true
+  | _ => false
+
+open Spec.CInt (promote uac) in
+/-- the node C's rules prescribe for `a op b` with `a : ta` (variable 0), `b : tb` (variable 1):
+    integer promotions, then usual arithmetic conversions (arithmetic, bitwise, comparison), result type as in 6.5;
+    for shifts ppci additionally converts the promoted count to the result type -/
+def expectedBin (op : BinOp) (ta tb : Model.CType.Ty) : Model.CType.TExpr :=
+  let sa := S ta
+  let sb := S tb
+  let va := Model.CType.TExpr.var ta 0
+  let vb := Model.CType.TExpr.var tb 1
+  let common := M (uac sa sb)
+  if op.isArith then .bin (binSym op) common (conv2 va (M (promote sa)) common) (conv2 vb (M (promote sb)) common)
+  else if op.isShift then
+    .bin (binSym op) (M (promote sa)) (conv2 va (M (promote sa)) (M (promote sa))) (conv2 vb (M (promote sb)) (M (promote sa)))
+  else if isCmp op then .bin (binSym op) .int (conv2 va (M (promote sa)) common) (conv2 vb (M (promote sb)) common)
+  else .bin (binSym op) .int va vb
+
+open Spec.CInt (promote) in
+/-- the node C's rules prescribe for a unary operator on variable 0 of type `ta` -/
+def expectedUn (op : UnOp) (ta : Model.CType.Ty) : Model.CType.TExpr :=
+  let pa := M (promote (S ta))
+  let va := Model.CType.TExpr.var ta 0
+  match op with
+  | .neg => .un .minus pa (Model.CType.coerce va pa)
+  | .bnot => .un .tilde pa (Model.CType.coerce va pa)
+  | .plus => Model.CType.coerce va pa
+  | .lnot => .un .bang .int va
+
+/-- width and signedness of an IR integer type name -/
+def irInfo : String → Option (Nat × Bool)
+  | "i8" => some (8, true) | "i16" => some (16, true) | "i32" => some (32, true) | "i64" => some (64, true)
+  | "u8" => some (8, false) | "u16" => some (16, false) | "u32" => some (32, false) | "u64" => some (64, false)
+  | _ => none
+
 /-! ### object types -/
 
 /-- the psABI scalar class of a basic type (signedness is irrelevant for layout) -/
